@@ -295,4 +295,31 @@ Section Read.
     split; [exact Hu|]. split; [exact Hfits|]. split; [lia|]. split; [lia|].
     split; [lia|]. exists item. split; [exact Hsub|]. apply load_response_sound. exact Hr.
   Qed.
+
+  (* "never fabricates content", spelled out for the body and the URL *)
+  Lemma head_at_suffix mt n bs rest : head_at mt n bs rest -> exists h, bs = h ++ rest.
+  Proof.
+    clear x509_ok. intros [w H]. destruct (shead_consumes _ _ _ _ _ H) as [h [E _]]. eauto.
+  Qed.
+
+  Lemma response_item_body_inside item st h body :
+    ResponseItem item st h body -> exists pre, item = pre ++ body.
+  Proof.
+    clear x509_ok. intros [hc [r0 [r1 [E [B1 [B2 _]]]]]].
+    apply head_at_suffix in B1. apply head_at_suffix in B2.
+    destruct B1 as [h1 E1]. destruct B2 as [h2 E2]. rewrite app_nil_r in E2.
+    exists (130 :: h1 ++ hc ++ h2). subst item r0 r1. cbn [app]. rewrite <- !app_assoc. reflexivity.
+  Qed.
+
+  Theorem read_bodies_in_input (bs : bytes) (b : bundle) :
+    lenN bs < two64 -> b_read x509_ok bs = Ok b ->
+    Forall (fun x => exists pre post, bs = pre ++ bx_body x ++ post) (b_exchanges b).
+  Proof.
+    intros Hlen H. destruct (read_sound bs b Hlen H)
+      as [fb [ss [sos [before [rl [_ [_ [_ [_ [locs [_ F2]]]]]]]]]]].
+    cbv zeta in F2. induction F2 as [|[[u o] l] x locs' xs' Hx F2 IH]; constructor; [|exact IH].
+    destruct Hx as [_ [_ [_ [_ [_ [item [[pre [post [E _]]] RI]]]]]]].
+    destruct (response_item_body_inside _ _ _ _ RI) as [p Ei].
+    exists (pre ++ p), post. rewrite E, Ei, <- !app_assoc. reflexivity.
+  Qed.
 End Read.
